@@ -31,7 +31,7 @@ theorem C17_facts :
       "memory.NewStdOutBinaryProcessorFromConfig"] ∧
     regex_NewStdOutProcessorFromConfig = ["^stdout:([0-9]+)$"] ∧
     regex_NewPrinterProcessorFromConfig = ["^printer:([0-9a-zA-Z]+)$"] ∧
-    cpuModelTest = "!= 6502 => cpu.Model65C02" := by
+    cpuModelTest = "6502:Model6502:Model65C02" := by
   refine ⟨?_, ?_, ?_, by decide, by decide, by decide, by decide⟩
   · intro s
     simp only [allowedMemModels, docMemSpecs, List.contains_cons, List.contains_nil, Bool.or_false]
